@@ -388,13 +388,28 @@ Definition call_id (x : ccall) : id :=
 Definition cmon_no_hang (c : ccase) : bool := negb (cc_hung c).
 
 (* monitor 1 - bounded in-flight seeds: at every moment the inserts that have returned nil minus
-   the (successful) finishes that have been issued are at most the configured tokens *)
-Definition cmon_bounded (c : ccase) : bool :=
-  let cl := calls_of c in
-  forallb (fun tau =>
-    count (fun x => is_ins_ok x && (cl_ret x <=? tau)) cl
-    <=? cc_cap c + count (fun x => is_fin_ok x && (cl_call x <=? tau)) cl)
-    (seq 0 (length (cc_events c))).
+   the (successful) finishes that have been issued are at most the configured tokens
+   (one pass: [acc] inserts that have returned nil so far, [fin] finishes issued so far that will
+   return nil, [open] the call each thread is in) *)
+Fixpoint bounded_scan (cap acc fin : nat) (open : list (nat * cop)) (evs : list cev) : bool :=
+  match evs with
+  | [] => true
+  | ECall t c :: rest =>
+      let fin' := match c with
+                  | CApi (OFin _) => match find_ret t 0 rest with Some (_, ROk) => S fin | _ => fin end
+                  | _ => fin
+                  end in
+      bounded_scan cap acc fin' ((t, c) :: open) rest
+  | ERet t r :: rest =>
+      let acc' := match r, find (fun x => fst x =? t) open with
+                  | ROk, Some (_, CApi (OIns _)) => S acc
+                  | _, _ => acc
+                  end in
+      (acc' <=? cap + fin)
+      && bounded_scan cap acc' fin (filter (fun x => negb (fst x =? t)) open) rest
+  | EGot _ _ :: rest => bounded_scan cap acc fin open rest
+  end.
+Definition cmon_bounded (c : ccase) : bool := bounded_scan (cc_cap c) 0 0 [] (cc_events c).
 
 Fixpoint remove_all (l : list id) (from : list id) : list id :=
   match l with [] => from | x :: r => remove_all r (rem1 Nat.eqb x from) end.
@@ -418,9 +433,10 @@ Definition cmon_delivery (c : ccase) : bool :=
   nats_eqb (sort sends) (sort gots).
 
 (* monitor 4 - rejections: feedback is refused as "not present" exactly for seeds that were never
-   accepted (seeds from 2000 on belong to the rounds in which a feedback races a finish of the
-   same seed: there the feedback is accepted or refused as "not present", nothing else); before Freeze() is called a held seed's feedback is accepted; each accepted seed's
-   finish succeeds once, any other finish is "not found" *)
+   accepted (seeds from 300 on belong to the rounds in which a feedback races a finish of the
+   same seed: there the feedback is accepted or refused as "not present", nothing else; ids are
+   kept small because they are unary numbers here); before Freeze() is called a held seed's
+   feedback is accepted; each accepted seed's finish succeeds once, any other finish is "not found" *)
 Definition cmon_rejections (c : ccase) : bool :=
   let cl := calls_of c in
   let acc := map call_id (filter is_ins_ok cl) in
@@ -429,7 +445,7 @@ Definition cmon_rejections (c : ccase) : bool :=
   forallb (fun x =>
     match cl_op x with
     | CApi (OFb i) =>
-        if 2000 <=? i
+        if 300 <=? i
         then (* the racing pair: the feedback runs against a finish of the same seed *)
              res_eqb (cl_res x) ROk || res_eqb (cl_res x) RNotPresent
         else if memb Nat.eqb i acc
